@@ -223,6 +223,21 @@ theorem eval_range_step (f ls : Nat) (n it fc : Node) (t : Ecal.Lex.Tok) (s s1 :
   · simp only [hd, if_true]
     unfold rtErr
     cases it.tok <;> rfl
-  · simp only [hd]; rfl
+  · simp only [hd, Bool.false_eq_true, if_false, ht, beq_self_eq_true, Bool.and_self, if_true]
+    rfl
+
+/-- **loop_range_inclusive_partial** — the PROVED parts of "a `for v in range(a, b, s)` node runs its block once per
+    element of the range", under the name that says it is partial: (1) on every numeric carrier the loop over the
+    range step is `forEach` over `rangeVals` (this statement = `loop_range_runs_rangeVals`); (2) `eval_range_step`:
+    `eval` of the call expression in the node IS that step on the call site's entry. FULL statement not proved:
+    the induction over the rounds joining (1) and (2); it needs "block, binder and arguments leave the loop's range
+    entry alone" as an invariant of all of `eval`. Inclusiveness itself is proved at Int and transfers through
+    `rangeVals_emb` (IEEE exactness below 2^53 assumed). -/
+theorem loop_range_inclusive_partial {α : Type} (o : NumOps α) (fr to step : α) (inj : α → Val) (brk : Sig)
+    (hb : brk.isBreak = true) (hc : brk.isContinue = false) (bind : Val → M Unit) (body : M Val)
+    (k : Nat) (cur : α) (f : Nat) (s : St) (hk : (rangeVals o fr to step k cur).length < k) (hf : k ≤ f) :
+    run (iterLoop (rangeIter o fr to step inj brk) bind body f cur) s =
+      run (forEach bind body ((rangeVals o fr to step k cur).map inj)) s :=
+  loop_range_runs_rangeVals o fr to step inj brk hb hc bind body k cur f s hk hf
 
 end Ecal.Props.C04
